@@ -258,7 +258,10 @@ def check_tlp_marking(marking_obj, spec_version):
     # Specific TLP Marking validation case.
 
     if marking_obj.get("definition_type", "") == "tlp":
-        color = marking_obj["definition"]["tlp"]
+        # "definition" may be absent when the marking uses extensions; then
+        # it can't be one of the TLP markings.
+        definition = marking_obj.get("definition")
+        color = definition.get("tlp") if definition else None
 
         if color == "white":
             if spec_version == '2.0':
